@@ -2,6 +2,7 @@ import Blots.Lemmas.Separators
 import Blots.Lemmas.DisplayInt
 import Blots.Lemmas.DisplayExact
 import Blots.Lemmas.DisplayRounding
+import Blots.Lemmas.FixedRendering
 /-
   C20 — Displayed numbers are well-formed and accurate to 15 significant digits.
 
@@ -25,10 +26,11 @@ import Blots.Lemmas.DisplayRounding
       for `* /`, exactness of the magnitude step (H1), of `powi` (H2) and of `round` (H3) at
       the values used, no overflow): `round_to_significant_figures(x, 15)` is within
       `(½ + 3·u·10^15)` units of the 15th significant digit of `x` (`fraction_rounding_error`;
-      less than one unit for `u = 2^-53`), and — given the text-level rendering step
-      `FractionRendering`, stated but not proved — the displayed numeral denotes exactly
+      less than one unit for `u = 2^-53`), and — with the text-level rendering step
+      `FractionRendering`, PROVED for every finite rounded value (`fraction_rendering_holds`,
+      `fixed_text_is_correctly_rounded`) — the displayed numeral denotes exactly
       `n/10^(14−e)`, `n` the integer `round` returned, within `(½ + u·10^15) < 0.62` units of
-      `x`, whichever decade the rounded value falls in (`display_accuracy_fraction`).
+      `x`, whichever decade the rounded value falls in (`display_accuracy_fraction'`).
   What is NOT proved (and is false of the code on the pinned tree):
     * `display_accuracy_statement` — fewer than one unit of error in the 15th significant
       digit on the `fraction` path.  The path computes ⌊log10|x|⌋ with the float `log10`,
@@ -259,7 +261,8 @@ theorem fraction_rounding_within_one_unit (ops : NumOps) (M : RoundingModel ops 
     _ < 1 * (10 : Rat) ^ (e - 14) := mul_lt_mul_of_pos_right hc hT
     _ = _ := one_mul _
 
-/-- THE REMAINING STEP (text level, independent of float arithmetic; not proved): the text
+/-- THE TEXT-LEVEL STEP (independent of float arithmetic; proved below for every finite `y`,
+    `fraction_rendering_holds`): the text
     produced from `y = round_to_significant_figures(x, 15)` — `{:.dp}` with
     `dp = decimalPlaces ops y 15`, trailing zeros trimmed, integer part grouped — is a
     well-formed numeral whose value is a multiple of `10^-dp` within half of it of `y`
@@ -278,8 +281,8 @@ def FractionRendering (ops : NumOps) (x : F64) : Prop :=
     and within ONE unit of the 15th significant digit of `x` — in fact within
     `½ + 2^-53·10^15 < 0.62` units: the text denotes exactly `n/10^(14−e)`, `n` the integer
     that `round` returned.  Missing for the unconditional statement: (H1)–(H3) are facts about
-    libm / hardware ((H1) is false at the `c20.accuracy` witnesses), and `FractionRendering`
-    is the unproved text-level step. -/
+    libm / hardware ((H1) is false at the `c20.accuracy` witnesses); `FractionRendering` is
+    discharged by `fraction_rendering_holds` (see `display_accuracy_fraction'`). -/
 theorem display_accuracy_fraction (ops : NumOps) (M : RoundingModel ops u64)
     (x : F64) (e e' : Int) (hpath : path x = .fraction) (he : -5 ≤ e) (he' : e ≤ 14)
     (H1 : MagnitudeExact ops x e) (H2 : PowiExactAt ops (14 - e))
@@ -418,5 +421,88 @@ example : ∃ v : Rat, Denotes (formatDisplayNumber displayOps (F64.ofNatBits 0x
       exact Denotes.standard false ['1'] [] (by decide) (by decide) (by decide)
     · simp only [hdp, hd]; norm_num
     · simp only [hdp, hd, habs, hy1]; norm_num
+
+/-! #### the text-level step, proved (`Lemmas/FixedRendering.lean`) -/
+
+/-- `{:.dp}` (`F64.toFixed`) of a finite double is: a minus sign iff the sign bit is set, a
+    non-empty integer part without leading zero, and for `dp > 0` a point and EXACTLY `dp`
+    fraction digits; the number it denotes is `m/10^dp` with `m` an integer, within half a
+    unit of the last place of the exact value (the rounding is exact, ties to even). -/
+theorem fixed_text_is_correctly_rounded (y : F64) (hf : y.isFinite = true) (dp : Nat) :
+    ∃ (ip fp : List Char) (m : Int),
+      (F64.toFixed y dp).toList =
+        (if y.neg then ['-'] else []) ++ ip ++ (if dp = 0 then [] else '.' :: fp) ∧
+      ip ≠ [] ∧ (∀ c ∈ ip, isDigit c = true) ∧ noLeadingZero ip = true ∧
+      (∀ c ∈ fp, isDigit c = true) ∧ fp.length = dp ∧
+      (m : Rat) = (if y.neg then -1 else 1) * (digitsVal (ip ++ fp) : Rat) ∧
+      absRat ((m : Rat) / (10 : Rat) ^ dp - toRat y) ≤ 1 / 2 / (10 : Rat) ^ dp := by
+  obtain ⟨ip, fp, htext, hne, hip, hfp, hlen, hnlz, hval⟩ := toFixed_shape y hf dp
+  have hround := roundHalfEven_rat y.ratio.1 y.ratio.2 (10 ^ dp) (S17.ratio_snd_pos y)
+    (Nat.pow_pos (by decide))
+  rw [← hval] at hround
+  have hcast : (((10 : Nat) ^ dp : Nat) : Rat) = (10 : Rat) ^ dp := by push_cast; rfl
+  rw [hcast] at hround
+  have habs : ∀ q : Rat, absRat q = |q| := ratAbs_eq
+  refine ⟨ip, fp, (if y.neg then -1 else 1) * ((digitsVal (ip ++ fp) : Nat) : Int), htext, hne,
+    hip, hnlz, hfp, hlen, ?_, ?_⟩
+  · cases y.neg <;> simp
+  · rw [habs]
+    unfold toRat
+    cases y.neg with
+    | false =>
+      simp only [Bool.false_eq_true, if_false, one_mul, Int.cast_natCast]
+      exact hround
+    | true =>
+      simp only [if_true, Int.cast_mul, Int.cast_neg, Int.cast_one, Int.cast_natCast]
+      rw [show (-1 * ((digitsVal (ip ++ fp) : Nat) : Rat)) / (10 : Rat) ^ dp -
+          -1 * ((y.ratio.1 : Rat) / (y.ratio.2 : Rat)) =
+          -(((digitsVal (ip ++ fp) : Nat) : Rat) / (10 : Rat) ^ dp -
+            (y.ratio.1 : Rat) / (y.ratio.2 : Rat)) by ring, abs_neg]
+      exact hround
+
+/-- `FractionRendering` HOLDS whenever `round_to_significant_figures(x, 15)` is finite (which
+    `display_accuracy_fraction` assumes anyway as "no overflow", `hdf`): the `{:.dp}` text is a
+    correctly rounded multiple of `10^-dp`, trimming the trailing zeros and grouping the integer
+    part give a well-formed numeral of the same value. -/
+theorem fraction_rendering_holds (ops : NumOps) (x : F64)
+    (hdf : (roundToSignificantFigures ops x 15).isFinite = true) : FractionRendering ops x := by
+  unfold FractionRendering
+  simp only
+  obtain ⟨neg, ip, fp, m, htext, hg, hz, hfp, hv, herr⟩ :=
+    fixed_rendering (roundToSignificantFigures ops x 15) hdf
+      (decimalPlaces ops (roundToSignificantFigures ops x 15) 15)
+  have habs : ∀ q : Rat, absRat q = |q| := ratAbs_eq
+  refine ⟨_, m, ?_, hv, ?_⟩
+  · unfold formatFloatSignificant
+    rw [htext]
+    exact Denotes.standard neg ip fp hg hz hfp
+  · rw [hv, habs]; exact herr
+
+/-- `display_accuracy_fraction` without the rendering hypothesis -/
+theorem display_accuracy_fraction' (ops : NumOps) (M : RoundingModel ops u64)
+    (x : F64) (e e' : Int) (hpath : path x = .fraction) (he : -5 ≤ e) (he' : e ≤ 14)
+    (H1 : MagnitudeExact ops x e) (H2 : PowiExactAt ops (14 - e))
+    (H3 : RoundExactAt ops (ops.mul x (ops.powi ten (14 - e))))
+    (hmf : (ops.mul x (ops.powi ten (14 - e))).isFinite = true)
+    (hdf : (roundToSignificantFigures ops x 15).isFinite = true)
+    (H1y : MagnitudeExact ops (roundToSignificantFigures ops x 15) e') :
+    ∃ v : Rat, Denotes (formatDisplayNumber ops x) v ∧
+      absRat (v - toRat x) < (10 : Rat) ^ (e - 14) :=
+  display_accuracy_fraction ops M x e e' hpath he he' H1 H2 H3 hmf hdf H1y
+    (fraction_rendering_holds ops x hdf)
+
+/-- and in the shape of `display_accuracy_statement` -/
+theorem display_accuracy_statement_at' (ops : NumOps) (M : RoundingModel ops u64)
+    (x : F64) (e e' : Int) (hpath : path x = .fraction) (he : -5 ≤ e) (he' : e ≤ 14)
+    (H1 : MagnitudeExact ops x e) (H2 : PowiExactAt ops (14 - e))
+    (H3 : RoundExactAt ops (ops.mul x (ops.powi ten (14 - e))))
+    (hmf : (ops.mul x (ops.powi ten (14 - e))).isFinite = true)
+    (hdf : (roundToSignificantFigures ops x 15).isFinite = true)
+    (H1y : MagnitudeExact ops (roundToSignificantFigures ops x 15) e') :
+    ∃ v : Rat, Denotes (formatDisplayNumber ops x) v ∧
+      ∃ k : Int, (10 : Rat) ^ k ≤ absRat (toRat x) ∧ absRat (toRat x) < (10 : Rat) ^ (k + 1) ∧
+        absRat (v - toRat x) < (10 : Rat) ^ (k - 14) :=
+  display_accuracy_statement_at ops M x e e' hpath he he' H1 H2 H3 hmf hdf H1y
+    (fraction_rendering_holds ops x hdf)
 
 end Blots.C20
